@@ -184,7 +184,15 @@ pub fn locate(file: &str, line: u32) -> (String, String) {
 
 pub fn signature(rec: &PanicRecord) -> String {
     let (func, src) = locate(&rec.file, rec.line);
-    format!("panic|{}|{}|{}|{}", rel(&rec.file), func, strip_digits(&rec.msg), src)
+    // messages of the standard library quote the offending input ("...; it is inside 'é' (bytes 3..5) of `Café`"): the quoted
+    // part is no part of the root cause
+    let mut msg = rec.msg.clone();
+    for pat in ["; it is inside", " of `", " when slicing `"] {
+        if let Some(i) = msg.find(pat) {
+            msg.truncate(i);
+        }
+    }
+    format!("panic|{}|{}|{}|{}", rel(&rec.file), func, strip_digits(&msg), src)
 }
 
 /// Run `f`, turning a panic into Err((signature, message)).
